@@ -406,7 +406,7 @@ class Spectrum:
             An array of sampled values.
 
         """
-        if waveunit != self.waveunit:
+        if Unit(waveunit).name != self.waveunit:
             # sample a converted copy so the caller's spectrum is left untouched
             spectrum = self.copy()
             spectrum.to(waveunit)
@@ -541,7 +541,7 @@ class Spectrum:
                              'If this Spectrum must be represented by a single '
                              'wavelength, consider using Spectrum.integrate() instead.')
 
-        if waveunit != self.waveunit:
+        if Unit(waveunit).name != self.waveunit:
             # bin a converted copy so the caller's spectrum is left untouched
             spectrum = self.copy()
             spectrum.to(waveunit)
@@ -793,6 +793,13 @@ class Spectrum:
 
         """
         for unit in args:
+
+            # any name Unit() accepts ('meter', 'micron', 'nanometer', any
+            # letter case) stands for that unit
+            try:
+                unit = Unit(unit).name
+            except ValueError:
+                raise ValueError('Unknown unit')
 
             if unit.lower() in ['m', 'um', 'nm', 'angstrom']:
                 if self.valueunit in ['photlam', 'flam', 'wlam']:
